@@ -11,10 +11,11 @@ EXTENDS ChainImport, Json
 CONSTANTS Depth, Family
 
 Tips == {Genesis} \cup [height : {1}, ts : Times]
-Plain(votes, ts) == [dh |-> 0, prev |-> "tip", ver |-> "ok", votes |-> votes, ts |-> ts]
+Plain(votes, ts) == [dh |-> 0, prev |-> "tip", ver |-> "ok", votes |-> votes, ts |-> ts, st |-> "ok"]
 Unanimous == {[i \in 1..N |-> t] : t \in Times} \cup {<<>>}
 TableBlocks == {Plain(v, t) : v \in VoteLists, t \in Times} \cup
-               {b \in Blocks : b.votes \in Unanimous}
+               {b \in Blocks : b.votes \in Unanimous /\
+                                (b.st = "ok" \/ (b.dh = 0 /\ b.prev = "tip" /\ b.ver = "ok"))}
 \* blocks a correct proposer could build on the tip, and their single-field deviations
 Honest(t) == IF t.height = 0 THEN {Plain(<<>>, x) : x \in Times}
              ELSE {Plain(v, Median(v)) : v \in {w \in VoteLists : 3 * Len(w) > 2 * N /\ Median(w) > t.ts}}
